@@ -15,7 +15,29 @@ import subprocess
 import vlib
 
 OPS = "TGDCXE"
-FDS = [100, 3, 0, 7]
+FDS = [100, 3, 0, 7, 1, 2]          # small numbers; 0 -> the dup results are 1, 2 (stdin/stdout/stderr)
+FD_MAX = 2 ** 31 - 1                # RawFd = i32
+FD_EDGES = [2 ** 7, 2 ** 8, 2 ** 15, 2 ** 16, 2 ** 24, 2 ** 31]
+
+
+def ndups(progs):
+    return sum(1 for p in progs for op in p if op[0] == "D")
+
+
+def pick_fd(rng, progs):
+    """the shared descriptor's number over the whole range of RawFd. The simulated table hands out
+    fd0+1, fd0+2, .. for the dups (model: next_fd = fd0 + 1, exact over Z), so fd0 just below an
+    edge makes the dup results cross it; fd0 + (number of dup operations) never exceeds i32::MAX."""
+    k = ndups(progs)
+    r = rng.random()
+    if r < 0.35:
+        f = rng.choice(FDS)
+    elif r < 0.8:
+        e = rng.choice(FD_EDGES)
+        f = e + rng.choice([-1, -1, -1, -2, -1 - k, -k, 0, 0, 1, rng.randrange(2, 5000)])
+    else:
+        f = rng.getrandbits(rng.randrange(1, 32))
+    return max(0, min(f, FD_MAX - k))
 # sha256 of the anchored part of unixfd.rs (everything above `impl Signature for UnixFd`), with
 # whitespace removed, at the time the model was written; a different text makes the quick tier
 # run a larger sample (drift is never reported as a violation by itself)
@@ -117,7 +139,7 @@ def parse_out(out):
         return None
     steps = []
     for x in lst(f[3]):
-        m = re.match(r"^(\d+)\.(\d+):([a-z.]+)$", x)
+        m = re.match(r"^(\d+)\.(\d+):([a-z_.]+)$", x)
         if m:
             steps.append(("P", int(m.group(1)), int(m.group(2)), m.group(3)))
             continue
@@ -211,6 +233,17 @@ def property_violations(fd0, progs, out):
                     bad.append("dup(2) failed but UnixFd::dup returned %s" % x)
             else:
                 return None
+    # (a) the UnixFd a dup hands out carries the number dup(2) returned (the harness reads it with get_raw_fd)
+    cur = {}
+    for st in steps:
+        if st[0] == "P":
+            cur[str(st[1])] = (st[1], st[2])
+        elif st[2] == "dup" and st[4] not in (None, "ERR", "EBADF") and st[1] in cur:
+            x = result.get(cur[st[1]], "")
+            m = re.match(r"^D=(-?\d+)$", x)
+            if m and int(m.group(1)) != int(st[4]):
+                bad.append("(a) dup(%d) returned %s but the UnixFd handed out by UnixFd::dup reports descriptor %s"
+                           % (st[3], st[4], m.group(1)))
     for f, tk in takes.items():
         if len(tk) > 1:
             bad.append("(a) %d takes of descriptor %d returned Some: %s" % (len(tk), f, tk))
@@ -222,7 +255,7 @@ def property_violations(fd0, progs, out):
             first_pt.setdefault((st[1], st[2]), pos)
     for f, tk in takes.items():
         t0, i0, _ = tk[0]
-        swap = [pos for pos, st in enumerate(steps) if st[0] == "P" and (st[1], st[2]) == (t0, i0) and st[3] == "take.cas"]
+        swap = [pos for pos, st in enumerate(steps) if st[0] == "P" and (st[1], st[2]) == (t0, i0) and st[3] in ("take.cas", "atomic.compare_exchange")]
         if not swap:  # no compare_exchange step seen: the handle's decrement is certainly after the swap
             swap = [pos for pos, st in enumerate(steps) if st[0] == "P" and (st[1], st[2]) == (t0, i0) and st[3] == "handle.drop"]
         if not swap:
@@ -298,6 +331,7 @@ class Runner:
         self.model_run = "run" if mode == "shim" else "run-legacy"
         self.failing = []       # (line, impl_out, model_out, violations)
         self.disagree = []      # (line, impl_out, model_out)
+        self.uninterp = []      # (line, out): outputs equal to the model's that the predicate cannot read
         self.nviol = 0
 
     def enum(self, heads, limit):
@@ -335,9 +369,21 @@ class Runner:
             ctx.case(canon, nontrivial=nthreads_active >= 2,
                      sample={"input": line, "impl": a, "kind": kind} if nthreads_active >= 2 and len(pts) >= 6 else None)
             self.account(kind, progs, sched, po, a)
+            hi = max([fd0] + (po[2] if po else []))
+            ctx.count("largest_descriptor:%s" % ("0-7" if hi < 8 else "8-254" if hi < 255 else "255-65534" if hi < 65535 else
+                                                 "65535-2^24" if hi <= 2 ** 24 else "2^24-i32::MAX" if hi < FD_MAX else "i32::MAX"))
             if v:
                 self.nviol += 1
                 self.failing.append((line, a, b, v))
+            if v is None:
+                # the predicate must be able to read every well-formed output: one it cannot read
+                # although the model printed the same text is a defect of the predicate (it was
+                # silent on every execution with a compare_exchange for a while), never ignored
+                ctx.count("predicate_could_not_interpret_output")
+                if a == b:
+                    self.uninterp.append((line, a))
+            else:
+                ctx.count("predicate_evaluated_on_impl_output")
             if a != b:
                 ctx.disagreements_checked += 1
                 if v is None or not v:
@@ -518,6 +564,12 @@ def report(ctx, rn):
                            "found_as": line, "failing_cases_in_this_run": rn.nviol})
             if len(seen) >= 4:
                 break
+    elif rn.uninterp:
+        rn.uninterp.sort(key=lambda x: (len(x[0]), x[0]))
+        ctx.tie_broken("checks/c12.py: the property predicate (property_violations) cannot interpret %d outputs of the "
+                       "implementation that are identical to the model's: the 'property evaluated on the implementation's "
+                       "own output' part of the check is not running on them" % len(rn.uninterp),
+                       "first (shortest) input: %s\noutput: %s" % rn.uninterp[0])
     elif rn.disagree:
         rn.disagree.sort(key=lambda x: (len(x[0]), x[0]))
         line, a, b = rn.disagree[0]
@@ -540,7 +592,8 @@ def report(ctx, rn):
 # ----------------------------------------------------------------------------- entry points
 
 def setup(ctx):
-    ctx.rule = ("a case = (fd0, one program per thread over {take,get,dup,dup whose dup(2) fails with EMFILE/ENFILE,clone,drop} on "
+    ctx.rule = ("a case = (fd0 over the whole range of RawFd: 0..7/100, just below / at / above 2^7, 2^8, 2^15, 2^16, 2^24 and up to "
+                "i32::MAX, random bit lengths - the simulated dup returns fd0+1, fd0+2, .. so dup results cross the same edges -, one program per thread over {take,get,dup,dup whose dup(2) fails with EMFILE/ENFILE,clone,drop} on "
                 "thread-local handles respecting ownership - the UnixFd returned by a dup is a handle like any other and is "
                 "taken/cloned/dup'ed/dropped by later operations -, schedule = list of thread ids); one schedule entry = one atomic "
                 "action (load / compare_exchange / Arc increment / Arc decrement / dup / close) of the real UnixFd, then "
@@ -601,13 +654,12 @@ def run(ctx):
 
     # --- small scopes: ALL interleavings of every program set (quick: of a seeded sample of the sets)
     P1, P2 = all_programs(1), all_programs(2)
-    fd0 = rng.choice(FDS)
     pairs = [(a, b) for a in P2 for b in P2]
     triples = [(a, b, c) for a in P1 for b in P1 for c in P1]
     if not thorough and not drift:
         pairs = rng.sample(pairs, 320)
         triples = rng.sample(triples, 90)
-    heads = [(fd0, p) for p in pairs + triples]
+    heads = [(pick_fd(rng, p), p) for p in pairs + triples]
     scheds = rn.enum([mk_line(f, p, []) for f, p in heads], 10 ** 6)
     lines = []
     complete = True
@@ -634,7 +686,7 @@ def run(ctx):
         ln = rng.choice([0, 2, 4, 6, 8, 10, 12, 16, 20, 24])
         hi = n if rng.random() < 0.9 else n + 1
         sched = [rng.randrange(hi) for _ in range(ln)]
-        lines.append(mk_line(rng.choice(FDS), progs, sched))
+        lines.append(mk_line(pick_fd(rng, progs), progs, sched))
     rn.batch(lines, "random-2-3x3")
     sample_for_coq += rng.sample(lines, min(len(lines), 60 if not thorough else 400))
 
@@ -645,10 +697,10 @@ def run(ctx):
         pairs = [(rng.choice(P3), rng.choice(P3)) for _ in range(npairs)]
         for k in range(0, len(pairs), 500):
             chunk = pairs[k:k + 500]
-            f = rng.choice(FDS)
-            scheds = rn.enum([mk_line(f, p, []) for p in chunk], 20000)
+            fs = [pick_fd(rng, p) for p in chunk]
+            scheds = rn.enum([mk_line(f, p, []) for f, p in zip(fs, chunk)], 20000)
             lines = []
-            for p, s in zip(chunk, scheds):
+            for f, p, s in zip(fs, chunk, scheds):
                 if s == "TOOMANY":
                     ctx.count("2x3_pairs_skipped_more_than_20000_interleavings")
                     continue
